@@ -1,0 +1,15 @@
+//go:build verif
+
+// Contracts for govc (contract-based deductive verification, see /verif/DESIGN.md).
+// Comment-only file: it adds no code and is compiled only with -tags verif.
+
+package parser
+
+// Each PromQL matcher type reaches the stream selection as its own operator: an
+// inequality is compared as an inequality, not run as a pattern.
+//@ func (*LabelMatcher).GetOp [C17]
+//@   modifies nothing
+//@   ensures equal: l.Node.Type == labels.MatchEqual ==> result == "="
+//@   ensures not-equal: l.Node.Type == labels.MatchNotEqual ==> result == "!="
+//@   ensures regexp: l.Node.Type == labels.MatchRegexp ==> result == "=~"
+//@   ensures not-regexp: l.Node.Type == labels.MatchNotRegexp ==> result == "!~"
